@@ -271,7 +271,7 @@ func execJSONW(c core.Case) []core.Rec {
 			res["ok"] = true
 		}
 		recs = append(recs, core.Rec{"chk": "edit", "schema": f.Name, "impl": "rmap", "src": "json-roundtrip", "ordered": false, "srcordered": true,
-			"pre": pre, "op": core.Rec{"k": "upsert", "at": at, "s": sub}, "res": res, "post": tkind.Project(f, troot), "step": "roundtrip",
+			"pre": pre, "op": core.Rec{"k": "upsert", "at": at, "s": sub, "dup": false}, "res": res, "post": tkind.Project(f, troot), "step": "roundtrip",
 			"sig": core.Rec{"impl": storeName, "src": "json-roundtrip", "k": "upsert", "at": atKind, "big64": hasBig64(f, sub)}})
 	}
 	return recs
